@@ -123,3 +123,25 @@ func ParallelAfterSkip(d *deck, files []string, ok func(string) bool, attach fun
 		attach(files[i], i)
 	}
 }
+
+// FlushKeepsAccumulator violates R12.10 FLUSH-RESETS: the text gathered outside the reset struct is emitted by every
+// flush and never cleared.
+func FlushKeepsAccumulator(parts []string, emit func(string)) {
+	var text []byte
+	n := 0
+	flush := func() {
+		if len(text) > 0 {
+			emit(string(text))
+			n = 0
+		}
+	}
+	for _, p := range parts {
+		if p == "" {
+			flush()
+			continue
+		}
+		text = append(text, p...)
+		n++
+	}
+	flush()
+}
